@@ -223,11 +223,11 @@ SPECS['C17'] = {'runs': {
     'quick': [R('roundtrip', 'h_query.c', ['ITEMS=2', 'SEGL=1'], 'lists of 1..2 items, keys/values of 0..1 chars over 1..255, value NULL or not; both compose flags; every int capacity <= required+2', ['round-trip', 'too-large'], 900),
               R('dissect', 'h_query.c', ['MODE_DISSECT', 'NMAX=5'], 'all texts over 1..255 of length 0..5; plus-to-space; four break modes', ['several-items', 'no-items'], 600),
               R('arith', 'h_query.c', ['MODE_ARITH', 'ITEMS=3'], 'size arithmetic for 3 items with strlen returning an arbitrary size_t (signed-overflow check on)', ['size-computed', 'size-refused'], 900, opts={'solver_timeout_ms': 3000})],
-    'thorough': [R('roundtrip', 'h_query.c', ['ITEMS=2', 'SEGL=2'], 'keys/values of 0..2 chars', ['round-trip'], 3000), R('roundtripW', 'h_query.c', ['WIDE', 'ITEMS=2', 'SEGL=1'], 'wide', ['round-trip'], 3000),
+    'thorough': [R('roundtrip', 'h_query.c', ['ITEMS=2', 'SEGL=1'], 'as quick', ['round-trip'], 1800), R('roundtrip-long', 'h_query.c', ['ITEMS=1', 'SEGL=2'], 'one item, key/value of 0..2 chars', ['round-trip'], 3000), R('roundtripW', 'h_query.c', ['WIDE', 'ITEMS=2', 'SEGL=1'], 'wide', ['round-trip'], 3000),
               R('dissect', 'h_query.c', ['MODE_DISSECT', 'NMAX=7'], 'length 0..7', ['several-items'], 2400),
               R('arith', 'h_query.c', ['MODE_ARITH', 'ITEMS=4'], '4 items', ['size-computed', 'size-refused'], 2400, opts={'solver_timeout_ms': 3000})]},
     'assumptions': COMMON_ASSUME + ['arith run: strlen/wcslen stubbed by an arbitrary 64-bit value (list of stubs: strlen, wcslen); signed overflow of add/sub/mul nsw is a violation'],
-    'bounds': {'quick': '<=2 items of <=1 char; dissect N<=5; 3 items arithmetic', 'thorough': '<=2 chars, N<=7, 4 items'}, 'outside': 'longer lists and strings'}
+    'bounds': {'quick': '<=2 items of <=1 char; dissect N<=5; 3 items arithmetic', 'thorough': 'plus 1 item of <=2 chars, wide variant, N<=7, 4 items (2 items x 2 chars did not finish in 3000 s)'}, 'outside': 'longer lists and strings'}
 SPECS['C18'] = {'runs': {
     'quick': [R('file', 'h_file.c', ['NMAX=4'], 'all Unix names and all backslash-only Windows names (drive-absolute, UNC with server, relative) over 1..255 of length 0..4; buffers of exactly the documented sizes', ['unix-absolute', 'unix-relative', 'win-drive', 'win-unc', 'win-relative'], 900),
               R('fileW', 'h_file.c', ['WIDE', 'NMAX=3'], 'wchar_t names over code points 1..255 of length 0..3', ['unix-absolute', 'win-unc'], 600),
